@@ -55,7 +55,23 @@ def check(mon, ev):
         X = fr(x)
         C = [fr(c) for c in cs]
         terms = [abs(C[i]) * abs(X) ** i for i in range(len(C))]
-        powers_ok = x == 0 or all(in_domain(abs(X) ** i) for i in range(1, n + 1))
+        slack = Fraction(0)
+        low_terms = []
+        if x != 0 and abs(X) < 1 and not all(in_domain(abs(X) ** i) for i in range(1, n + 1)):
+            # |x| so small that x^i underflows for i >= j: any scheme multiplies partial sums of the c_i by such powers;
+            # whatever it gets for them (0 or a subnormal), the effect is at most |c_i| * 2^-1072 each. Terms that are
+            # themselves normal keep their relative bound.
+            j = next(i for i in range(1, n + 1) if not in_domain(abs(X) ** i))
+            # + the products c_i * x^i that are themselves subnormal: absolute error up to 2^-1074 per operation
+            slack = (sum(abs(C[i]) for i in range(j, len(C))) + 4 * (n + 2)) * Fraction(1, 2 ** 1072)
+            if all(in_domain(abs(c)) for c in C) and all(in_domain(terms[i]) for i in range(j)):
+                mon.count("tiny_argument_with_underflowing_powers")
+                low_terms = terms[j:]      # kept in the relative bound (they may still be normal numbers)
+                terms = terms[:j]
+            else:
+                mon.count("out_of_domain")
+                return
+        powers_ok = True
         # any scheme forms sub-expressions c_i * x^j with 0 <= j <= i (e.g. c6 + c7*x in Estrin/Horner): the coefficient
         # itself and the full term bracket all of them
         if not (powers_ok and all(in_domain(t) for t in terms) and all(in_domain(abs(c)) for c in C)):
@@ -66,14 +82,14 @@ def check(mon, ev):
             mon.violation("evaluate returns non-finite value on in-domain input", wit)
             return
         R = fr(r)
-        A = sum(terms)
-        if exact_class(cs, x, n):
+        A = sum(terms) + sum(low_terms)
+        if slack == 0 and exact_class(cs, x, n):
             mon.count("exact_class")
             if R != S:
                 mon.violation("evaluate not exact although every partial term is exactly representable", lambda: wit({"expected": float(S)}))
             return
         mon.count("bounded_class")
-        tol = 4 * (n + 2) * U * A
+        tol = 4 * (n + 2) * U * A + slack
         dev = abs(R - S)
         mon.ratio(ratio(dev, tol), lambda: wit())
         if dev > tol:
